@@ -1,6 +1,6 @@
 CONSTANTS
-  OpLists <- SeqOpLists
-  TableTuples <- SeqTuplesQuick
+  OpLists <- SmallOpLists
+  TableTuples <- SmallTuples
   MaxRuns = 3
   Leaky = TRUE
 SPECIFICATION Spec
